@@ -564,6 +564,22 @@ impl<'tcx> Cx<'tcx> {
             }
             tf.push(("loc", s(loc)));
             tf.push(("exp", J::B(exp)));
+            if exp && matches!(data.terminator().kind, TerminatorKind::SwitchInt { .. }) {
+                // which macros the branch comes from (`debug_assert` -> code that exists in debug builds only)
+                let names: Vec<J> = data
+                    .terminator()
+                    .source_info
+                    .span
+                    .macro_backtrace()
+                    .filter_map(|e| match e.kind {
+                        rustc_span::ExpnKind::Macro(_, name) => Some(s(name.to_string())),
+                        _ => None,
+                    })
+                    .collect();
+                if !names.is_empty() {
+                    tf.push(("mac", J::A(names)));
+                }
+            }
             blocks.push(J::O(vec![("stmts", J::A(stmts)), ("term", J::O(tf))]));
         }
         let kind = tcx.def_kind(def);
